@@ -21,6 +21,7 @@ import (
 	"time"
 
 	"github.com/sassoftware/relic/v8/config"
+	"github.com/sassoftware/relic/v8/lib/appmanifest"
 
 	"verif/gen/xmlgen"
 	"verif/relicx"
@@ -271,6 +272,33 @@ func partD(pool *jvmPool) {
 		addKey(name, filepath.Join(relicx.KeyDir, "rsaA.key"), p)
 		cases = append(cases, idCase{name: "generated subject " + s.name, key: name, leaf: leaf, issuer: inter})
 	}
+	// keys whose token, a fixed-width field of 16 hex digits, begins with a zero digit /
+	// a zero octet (committed keys, cmd/c19/keygen; the token is a function of the key
+	// alone and none of the other fixture keys is of these classes)
+	for _, tk := range tokenClassKeys {
+		k := loadPEMKey(filepath.Join(relicx.KeyDir, tk.name+".key"))
+		rp, ok := k.Public().(*rsa.PublicKey)
+		if !ok || tokenClass(dotnetPublicKeyToken(rp)) != tk.class {
+			fatal("fixture key %s is not of token class %s (reference token %s)", tk.name, tk.class, dotnetPublicKeyToken(rp))
+		}
+		tmpl := &x509.Certificate{
+			SerialNumber: big.NewInt(int64(8000 + len(cases))), Subject: pkix.Name{CommonName: "leaf c19 " + tk.name},
+			NotBefore: time.Now().Add(-time.Hour), NotAfter: time.Now().Add(24 * time.Hour),
+			KeyUsage: x509.KeyUsageDigitalSignature, ExtKeyUsage: []x509.ExtKeyUsage{x509.ExtKeyUsageCodeSigning},
+		}
+		der, err := x509.CreateCertificate(rand.Reader, tmpl, inter, k.Public(), interKey)
+		if err != nil {
+			fatal("cannot issue certificate for %s: %v", tk.name, err)
+		}
+		leaf, _ := x509.ParseCertificate(der)
+		p := filepath.Join(scratch, tk.name+".crt")
+		blob := pem.EncodeToMemory(&pem.Block{Type: "CERTIFICATE", Bytes: der})
+		blob = append(blob, interPEM...)
+		blob = append(blob, rootPEM...)
+		os.WriteFile(p, blob, 0o644)
+		addKey(tk.name, filepath.Join(relicx.KeyDir, tk.name+".key"), p)
+		cases = append(cases, idCase{name: "fixture " + tk.name + " (token class " + tk.class + ")", key: tk.name, leaf: leaf, issuer: inter})
+	}
 	// issuing CAs whose subjectKeyIdentifier is NOT the SHA-1 of their key (RFC 7093
 	// truncated SHA-256; an arbitrary 8-byte value): issuerKeyHash is defined over
 	// the issuer's public key, whatever identifier the certificate carries
@@ -413,6 +441,7 @@ func partD(pool *jvmPool) {
 			if rp, ok := cs.leaf.PublicKey.(*rsa.PublicKey); ok {
 				want := dotnetPublicKeyToken(rp)
 				row["expected_publicKeyToken"] = want
+				run.Outcome("identity:signing-key-token-class:" + tokenClass(want))
 				if !strings.EqualFold(got.token, want) || !strings.EqualFold(got.licenseToken, want) {
 					run.Outcome("identity:public-key-token-differs")
 					report("identity:public-key-token", fmt.Sprintf("publicKeyToken %s (license copy %s) != .NET token of the signing key %s: %s", got.token, got.licenseToken, want, label), len(out), map[string]any{"part": "D", "case": label})
@@ -431,8 +460,94 @@ func partD(pool *jvmPool) {
 			table = append(table, row)
 		}
 	}
+	tokenFunctionFamily()
 	run.Set("partD_identity_table", table)
 	run.Set("partD_cases", map[string]int{"key_and_chain_cases": len(cases), "manifest_inputs": len(inputs)})
+}
+
+// tokenClassKeys: committed RSA-2048 keys chosen by the class of their token.
+var tokenClassKeys = []struct{ name, class string }{
+	{"tok0", "one-leading-zero-digit"},
+	{"tok00", "leading-zero-octet"},
+}
+
+// tokenClass: how many of the leading hex digits of a token are zero, the
+// property that distinguishes a fixed-width rendering from a numeric one.
+func tokenClass(tok string) string {
+	n := 0
+	for n < len(tok) && tok[n] == '0' {
+		n++
+	}
+	switch {
+	case n == 0:
+		return "no-leading-zero"
+	case n == 1:
+		return "one-leading-zero-digit"
+	default:
+		return "leading-zero-octet"
+	}
+}
+
+// tokenFunctionFamily: the token is a pure function of the RSA public key
+// (modulus length, modulus octets, public exponent), so the function relic uses
+// when signing and when verifying is compared with the reference computation on
+// a family of public keys directly: modulus length {1024, 2048, 3072, 4096} bits
+// x exponent {3, 65537} x modulus 2^(bits-1) + 2k+1 for every k < 2048. No
+// private key is needed (nothing is signed); over 16384 keys every class of
+// token (leading zero digit, leading zero octet, a zero high digit in every
+// octet position) occurs many times, and the tallies say how often.
+func tokenFunctionFamily() {
+	const perSize = 2048
+	classes := map[string]int{}
+	zeroHigh := make([]int, 8)
+	n := 0
+	for _, bits := range []int{1024, 2048, 3072, 4096} {
+		for _, e := range []int{3, 65537} {
+			base := new(big.Int).Lsh(big.NewInt(1), uint(bits-1))
+			for k := 0; k < perSize; k++ {
+				pub := &rsa.PublicKey{N: new(big.Int).Add(base, big.NewInt(int64(2*k+1))), E: e}
+				want := dotnetPublicKeyToken(pub)
+				cls := tokenClass(want)
+				classes[cls]++
+				for i := 0; i < 8; i++ {
+					if want[2*i] == '0' {
+						zeroHigh[i]++
+					}
+				}
+				n++
+				run.Eval(1)
+				got, err := relicPublicKeyToken(pub)
+				switch {
+				case err != nil:
+					run.Outcome("identity:token-function:error")
+					report("identity:public-key-token-function:error", fmt.Sprintf("PublicKeyToken fails for an RSA public key (%d bits, e=%d, modulus 2^%d+%d): %v", bits, e, bits-1, 2*k+1, err), bits, map[string]any{"part": "D", "bits": bits, "e": e, "k": k})
+				case got != want:
+					run.Outcome("identity:token-function:differs:" + cls)
+					report("identity:public-key-token-function:"+cls, fmt.Sprintf("PublicKeyToken = %q, the .NET token of the key is %q (%d bits, e=%d, modulus 2^%d+%d)", got, want, bits, e, bits-1, 2*k+1), bits,
+						map[string]any{"part": "D", "bits": bits, "e": e, "modulus": fmt.Sprintf("2^%d+%d", bits-1, 2*k+1), "relic": got, "expected": want})
+				default:
+					run.Outcome("identity:token-function:equal:" + cls)
+				}
+			}
+		}
+	}
+	run.Distinct(fmt.Sprintf("identity:token-function-family:%d", n))
+	for _, c := range []string{"no-leading-zero", "one-leading-zero-digit", "leading-zero-octet"} {
+		if classes[c] == 0 {
+			fatal("token function family has no key of class %s", c)
+		}
+	}
+	run.Set("partD_token_function_family", map[string]any{"public_keys": n, "by_token_class": classes, "tokens_with_zero_high_digit_at_octet": zeroHigh})
+}
+
+// relicPublicKeyToken calls relic's token function, a panic being a result.
+func relicPublicKeyToken(pub *rsa.PublicKey) (tok string, err error) {
+	defer func() {
+		if r := recover(); r != nil {
+			err = fmt.Errorf("panic: %v", r)
+		}
+	}()
+	return appmanifest.PublicKeyToken(pub)
 }
 
 type identity struct {
